@@ -87,6 +87,7 @@ let do_op (s : st) (f : string list) : st * string =
   | ["RA"; a] -> (st1 s (ReadsApplied (ns a)), "RA")
   | ["RD"; lo; hi] -> (st1 s (ReadsDropped (ns lo, ns hi)), "RD")
   | ["T"; t] -> (st1 s (Tick (ns t)), "T")
+  | ["QS"; _] -> (s, "QS")   (* quiesce is invisible to the request tables: node.tick ticks them on every path *)
   | ["GP"; k] -> (st1 s (GcP (ns k)), "GP")
   | ["GC"] -> (st1 s GcC, "GC")
   | ["GS"] -> (st1 s GcS, "GS")
